@@ -181,6 +181,31 @@ static void public_route() {
     });
 }
 
+static std::pair<std::string, std::string> check_public(const std::string &t, bool connect, bool &got, bool &auth);
+// port texts at every magnitude boundary, incl. values that fall into 1..65535 after truncation to 16/31/32/63/64 bits
+static void port_values() {
+    typedef unsigned __int128 u128; std::vector<u128> vals = {0, 1, 2, 79, 80, 443, 8080, 65534, 65535, 65536, 65537, 99999, 100000};
+    for (u128 k : {(u128)1 << 16, (u128)1 << 31, (u128)1 << 32, (u128)1 << 33, (u128)1 << 63, (u128)1 << 64, (u128)1 << 70}) for (long d : {-2L, -1L, 0L, 1L, 2L, 79L, 80L, 81L, 443L, 8080L, 65534L, 65535L, 65536L}) { vals.push_back(k + d); vals.push_back(k * 3 + d); vals.push_back(k * 65537 + d); }
+    uint64_t idx = 0;
+    for (u128 v : vals) {
+        std::string digits; if (v == 0) digits = "0"; else { u128 t = v; while (t) { digits.insert(digits.begin(), (char)('0' + (int)(t % 10))); t /= 10; } }
+        for (const char *pre : {"", "0", "000", " ", "+", "-"}) for (const char *post : {"", " ", "a", "."}) {
+            std::string port = std::string(pre) + digits + post;
+            if ((idx++ % A.nshards) != (uint64_t)A.shard) continue;
+            for (const char *tmpl : {"http://h:%s/", "http://u:p@h.example:%s/p?q#f", "http://[::1]:%s/"}) {
+                std::string t = tmpl; t.replace(t.find("%s"), 2, port);
+                if (!run_case(t, 17)) return;
+                g_stats.cls("port_value_targets");
+                if (port.find(' ') == std::string::npos) { // also what a user sees through the request line, and the CONNECT / Host routes
+                    bool got, auth; auto r = check_public(t, false, got, auth); g_stats.evaluations++;
+                    if (!r.first.empty()) { g_stats.fail("C13:" + r.first, case_text("public", t), r.second); return; }
+                }
+            }
+            if (port.find(' ') == std::string::npos) { std::string t = "h.example:" + port; bool got, auth; auto r = check_public(t, true, got, auth); g_stats.evaluations++; if (!r.first.empty()) { g_stats.fail("C13:" + r.first, case_text("connect", t), r.second); return; } }
+        }
+    }
+}
+
 static void random_bytes() {
     int cases = A.thorough() ? 400000 : 40000;
     static const std::string special = ":/@?#[]. \t%";
@@ -220,7 +245,8 @@ int main(int argc, char **argv) {
     if (!A.replay.empty()) rc = replay(A.replay);
     else {
         g_stats.init(A); g_stats.max_samples = 8; vc::install_crash_capture();
-        exhaustive();
+        port_values();
+        if (g_stats.failures.empty()) exhaustive();
         if (g_stats.failures.empty()) random_bytes();
         if (g_stats.failures.empty()) public_route();
         g_stats.exhaustive = false; // the enumerated part is exhaustive up to its length bound; random/public parts are sampled
